@@ -293,12 +293,22 @@ static void gen_array_model(rng_t *r, int m, uint64_t *a, size_t n, unsigned max
     }
     case AM_BITWIDTH: { /* all values with at most b bits, b uniform: bit-width boundaries */
         unsigned b = (unsigned)rng_below(r, maxbits + 1);
+        if (rng_chance(r, 1, 2)) { /* widths that fill a whole number of bytes (top bit of the last byte in use) */
+            unsigned k = 1 + (unsigned)rng_below(r, maxbits / 8);
+            unsigned d = (unsigned)rng_below(r, 3);
+            b = 8 * k - d;
+        }
+        uint64_t bbase = rng_chance(r, 1, 2) ? 0 : (b < maxbits ? gen_upto_bits(r, maxbits - b > 20 ? 20 : maxbits - b) : 0);
         for (size_t i = 0; i < n; i++) {
-            a[i] = gen_upto_bits(r, b);
+            a[i] = bbase + gen_upto_bits(r, b);
+        }
+        if (b) {
+            size_t pos0 = rng_below(r, n);
+            a[pos0] = bbase; /* pin the minimum so the offsets really span b bits */
         }
         if (b) {
             size_t pos = rng_below(r, n);
-            a[pos] = gen_bits_exact(r, b);
+            a[pos] = bbase + gen_bits_exact(r, b);
         }
         break;
     }
